@@ -72,7 +72,11 @@ func cmdRun(args []string) {
 		}
 	}
 	r := &Runner{L: L, solver: *solver, timeoutMs: 20000, workers: 1}
-	res := r.RunJobs([]Job{{Dir: *dir, Harness: *h, Params: params, Label: *h}})
+	job := Job{Dir: *dir, Harness: *h, Params: params, Label: *h}
+	if os.Getenv("ZSYM_PROBE") != "" {
+		job.ProbeHang, job.BudgetS = true, 20
+	}
+	res := r.RunJobs([]Job{job})
 	jr := res[0]
 	fmt.Printf("load %.1fs paths=%d ok=%d infeasible=%d panic=%d undecided=%v err=%q queries=%d solver=%.3fs instrs=%d witness=%d\n",
 		L.loadTime.Seconds(), jr.Paths, jr.OkPaths, jr.Infeasible, jr.PanicPaths, jr.Undecided, jr.Err, jr.Queries, jr.SolverTime.Seconds(), jr.Instrs, jr.Witness)
